@@ -617,8 +617,8 @@ BUDGET_QUICK = {"sweep": 50, "rechunked": 12, "mailbox": 4, "two": 18, "extras":
 # anchors / constants drifted: a wider generator even in the quick tier
 BUDGET_ESCALATED = {"sweep": 200, "rechunked": 40, "mailbox": 12, "two": 60, "extras": 60, "odd": 10, "norange": 8,
                     "within": 10, "seconds": 40}
-BUDGET_THOROUGH = {"sweep": 2000, "rechunked": 250, "mailbox": 80, "two": 300, "extras": 300, "odd": 40,
-                   "norange": 30, "within": 40, "seconds": 150}
+BUDGET_THOROUGH = {"sweep": 400, "rechunked": 100, "mailbox": 30, "two": 120, "extras": 120, "odd": 16,
+                   "norange": 12, "within": 16, "seconds": 60}
 
 
 # ------------------------------------------------------------------------------------------
@@ -786,7 +786,7 @@ def nontrivial(case, got):
 
 def unit_get_array(ctx):
     if ctx.thorough:
-        nscen, budget = 160, BUDGET_THOROUGH
+        nscen, budget = 90, BUDGET_THOROUGH
     elif ctx.escalated():
         nscen, budget = 56, BUDGET_ESCALATED
     else:
